@@ -561,7 +561,22 @@ class Interp:
     def ex_Constant(self, e, fr): return e.value
     def ex_Name(self, e, fr):
         if e.id == '__class__' and fr.defcls is not None: return fr.defcls
-        return fr.lookup(e.id)
+        try:
+            return fr.lookup(e.id)
+        except PyExc as ex:
+            if ex.cls is not NameError: raise
+            # a closure whose enclosing frame was set up by a check (the outer function was not run): a plain top-level assignment
+            # `name = <expr>` of the enclosing function (an alias hoisted out of the closures) is evaluated there on first use
+            f = fr
+            while f is not None:
+                node = getattr(f.fi, 'node', None)
+                for st in getattr(node, 'body', []) or []:
+                    if isinstance(st, ast.Assign) and len(st.targets) == 1 and isinstance(st.targets[0], ast.Name) and st.targets[0].id == e.id and f is not fr:
+                        v = self.ev(st.value, f)
+                        f.locals[e.id] = v
+                        return v
+                f = f.parent
+            raise
     def ex_NamedExpr(self, e, fr):
         v = self.ev(e.value, fr); self.assign(e.target, v, fr); return v
     def ex_JoinedStr(self, e, fr):
@@ -830,7 +845,10 @@ class Interp:
     def ex_SetComp(self, e, fr):
         out = []
         self._comp(e.generators, fr, lambda f: out.append(self.ev(e.elt, f)))
-        if any(is_sym(x) for x in out): raise Outside('set comprehension with symbolic elements')
+        if any(is_sym(x) for x in out):
+            h = getattr(self.world, 'sym_set_display', None)       # as for a set display: the class-model world may give it a meaning
+            if h is not None: return h(self, out)
+            raise Outside('set comprehension with symbolic elements')
         return set(out)
     def ex_DictComp(self, e, fr):
         out = LocalDict()
